@@ -171,6 +171,8 @@ def mon_c09(sc, prof, pairs):
         line = sc.lines[int(i["step"])]
         w = line.split()
         trait_sort = (w[0] == "sort" and len(w) > 2 and w[2].startswith(("tsm_", "tvec_"))) or w[0] == "apply_index"
+        if w[0] == "tcapacity" and i.get("parity", "").startswith("false"):
+            out.append(Failure(sc, prof, i["step"], f"{line}: the SoAVec trait answers {i.get('ret')} where the inherent capacity() answers {i['parity'].split(':')[-1]}", "C09:tcapacity:parity", {"I": i["raw"]}))
         if not (w[0].startswith("t") and (w[0][1:] in ("push", "pop", "insert", "remove", "swap_remove", "replace", "truncate", "clear", "append", "split_off", "new", "get", "len")) or w[0] == "bounds" or trait_sort):
             continue
         sub = w[0] if w[0] != "tget" else f"tget:{w[3]}"
@@ -199,6 +201,8 @@ def mon_c12(sc, prof, pairs):
         w = line.split()
         op = w[0]
         if op in ("treserve", "treserve_exact", "tshrink_to_fit", "tcapacity", "twith_capacity"): op = op[1:]   # through the SoAVec trait
+        if i.get("parity", "").startswith("false"):
+            out.append(Failure(sc, prof, i["step"], f"{line}: the SoAVec trait answers {i.get('ret')} where the inherent capacity() answers {i['parity'].split(':')[-1]}", "C12:tcapacity:parity", {"I": i["raw"]}))
         if op == "capacity" and i["status"] != "ok":
             out.append(Failure(sc, prof, i["step"], f"capacity() panicked", "C12:capacity:panic", {"I": i["raw"]}))
         if op == "promise":
